@@ -62,6 +62,7 @@ inductive JsonShape where
   | obj (fields : List (Name × Presence × JsonShape))
   | oneOf (ts : List JsonShape)
   | ref (n : Name)
+  | fallible (s : JsonShape)   -- `serde_json::to_value(&v).unwrap_or(Value::Null)`: `s`, or `null` when `v` cannot be serialised
 
 /-- Conditions that guard stdout emission sites in the handlers (the translator maps the guard text to these). -/
 inductive Atom where
